@@ -4,8 +4,8 @@ package tstateprops
 //
 // Three layers, exactly as the property words them: the parent ("base") state,
 // the block's pending changes (values and tombstones published by earlier
-// views), and the current view. The view layer is a plain map of the entries
-// written in this view plus an undo stack; a checkpoint is the height of the
+// views), and the views. A view layer is a plain map of the entries
+// written in that view plus an undo stack; a checkpoint is the height of the
 // undo stack. Nothing here is derived from the implementation: there is no
 // allocate/write bookkeeping and no "unchanged" short cut, visible values are
 // simply looked up layer by layer and the published set is computed at commit
@@ -18,20 +18,38 @@ type mval struct {
 }
 
 type kvcpUndo struct {
-	k    string
-	had  bool
-	prev mval
+	k        string
+	had      bool
+	prev     mval
+	prevRest bool
 }
 
 type kvcp struct {
 	base  map[string]mval // parent state: present keys only
 	block map[string]mval // block-level pending changes: entry present = changed; Ok=false = tombstone
-	view  map[string]mval // entries written in the current view (may equal the underlying value)
-	undo  []kvcpUndo
+	cur   *kvView         // the "current" view of the single-view convenience API below (C05)
+}
+
+// kvView is one transaction view over the shared base/block layers. Any number
+// of views may exist; a view's uncommitted entries are visible only through it.
+// Commit is not terminal: the view keeps its entries and its undo stack, so it
+// can be used further, rolled back to checkpoints taken before the commit
+// (which never un-publishes anything) and committed again.
+type kvView struct {
+	m    *kvcp
+	ent  map[string]mval // entries written in this view (may equal the underlying value)
+	rest map[string]bool // bookkeeping for a generator rule only: the entry equalled the underlying value when it was written
+	undo []kvcpUndo
 }
 
 func newKvcp(base map[string]mval) *kvcp {
-	return &kvcp{base: base, block: map[string]mval{}, view: map[string]mval{}}
+	m := &kvcp{base: base, block: map[string]mval{}}
+	m.cur = m.newView()
+	return m
+}
+
+func (m *kvcp) newView() *kvView {
+	return &kvView{m: m, ent: map[string]mval{}, rest: map[string]bool{}}
 }
 
 // underlying is what a fresh view would read: block-level pending change, else parent state.
@@ -45,63 +63,98 @@ func (m *kvcp) underlying(k string) mval {
 	return mval{}
 }
 
-// get is what the current view must read.
-func (m *kvcp) get(k string) mval {
-	if e, ok := m.view[k]; ok {
+// get: the value most recently written in this view, else block pending, else parent.
+func (v *kvView) get(k string) mval {
+	if e, ok := v.ent[k]; ok {
 		return e
 	}
-	return m.underlying(k)
+	return v.m.underlying(k)
 }
 
-func (m *kvcp) set(k string, v mval) {
-	prev, had := m.view[k]
-	m.undo = append(m.undo, kvcpUndo{k: k, had: had, prev: prev})
-	m.view[k] = v
+func (v *kvView) set(k string, nv mval) {
+	prev, had := v.ent[k]
+	v.undo = append(v.undo, kvcpUndo{k: k, had: had, prev: prev, prevRest: v.rest[k]})
+	v.ent[k] = nv
+	v.rest[k] = nv == v.m.underlying(k)
 }
 
-func (m *kvcp) insert(k, v string) { m.set(k, mval{Ok: true, V: v}) }
-func (m *kvcp) remove(k string)    { m.set(k, mval{}) }
-func (m *kvcp) checkpoint() int    { return len(m.undo) }
+func (v *kvView) insert(k, val string) { v.set(k, mval{Ok: true, V: val}) }
+func (v *kvView) remove(k string)      { v.set(k, mval{}) }
+func (v *kvView) checkpoint() int      { return len(v.undo) }
 
-func (m *kvcp) rollback(cp int) {
-	for len(m.undo) > cp {
-		u := m.undo[len(m.undo)-1]
-		m.undo = m.undo[:len(m.undo)-1]
+func (v *kvView) rollback(cp int) {
+	for len(v.undo) > cp {
+		u := v.undo[len(v.undo)-1]
+		v.undo = v.undo[:len(v.undo)-1]
 		if u.had {
-			m.view[u.k] = u.prev
+			v.ent[u.k] = u.prev
+			v.rest[u.k] = u.prevRest
 		} else {
-			delete(m.view, u.k)
+			delete(v.ent, u.k)
+			delete(v.rest, u.k)
 		}
 	}
 }
 
+// clone copies the view (for look-ahead on the model only).
+func (v *kvView) clone() *kvView {
+	c := &kvView{m: v.m, ent: map[string]mval{}, rest: map[string]bool{}, undo: append([]kvcpUndo(nil), v.undo...)}
+	for k, e := range v.ent {
+		c.ent[k] = e
+	}
+	for k, r := range v.rest {
+		c.rest[k] = r
+	}
+	return c
+}
+
+// staleRestoring reports whether the view holds an entry that equalled the
+// underlying value when it was written and differs from the underlying value
+// now (the underlying value changed under the view). C04's generator uses it to
+// exclude rollbacks below a view's own Commit that land on such an entry; the
+// model's reads, rollbacks and commits do not use it.
+func (v *kvView) staleRestoring() bool {
+	for k, e := range v.ent {
+		if v.rest[k] && e != v.m.underlying(k) {
+			return true
+		}
+	}
+	return false
+}
+
 // diff is the set the property says a commit must publish: exactly the keys
 // whose visible value differs from the underlying state, with those values.
-func (m *kvcp) diff() map[string]mval {
+func (v *kvView) diff() map[string]mval {
 	out := map[string]mval{}
-	for k, e := range m.view {
-		if e != m.underlying(k) {
+	for k, e := range v.ent {
+		if e != v.m.underlying(k) {
 			out[k] = e
 		}
 	}
 	return out
 }
 
-// commit publishes diff() into the block layer and starts a fresh view.
-func (m *kvcp) commit() map[string]mval {
-	d := m.diff()
+// commit publishes diff() into the block layer; the view stays usable.
+func (v *kvView) commit() map[string]mval {
+	d := v.diff()
 	for k, e := range d {
-		m.block[k] = e
+		v.m.block[k] = e
 	}
-	m.abandon()
 	return d
 }
 
-// abandon drops the view without publishing anything.
-func (m *kvcp) abandon() {
-	m.view = map[string]mval{}
-	m.undo = m.undo[:0]
+// single-view convenience API (one view at a time, commit/abandon start a fresh one)
+func (m *kvcp) get(k string) mval  { return m.cur.get(k) }
+func (m *kvcp) insert(k, v string) { m.cur.insert(k, v) }
+func (m *kvcp) remove(k string)    { m.cur.remove(k) }
+func (m *kvcp) checkpoint() int    { return m.cur.checkpoint() }
+func (m *kvcp) rollback(cp int)    { m.cur.rollback(cp) }
+func (m *kvcp) commit() map[string]mval {
+	d := m.cur.commit()
+	m.cur = m.newView()
+	return d
 }
+func (m *kvcp) abandon() { m.cur = m.newView() }
 
 // Permission lattice of C05, from the property text: reading needs the read
 // bit; modifying (overwrite or delete of a visible key, and any attempt to
